@@ -58,7 +58,7 @@ ASSUMPTIONS = [
     "Images with |mean| >> std are not generated: their float32 auto-correlation is flat to within rounding, which is a conditioning limit of float32, not the geometry claim",
     "the fixed-point claim depends on the numpy cross_correlation_shift defect of C13 (fixes/C13-1): it is judged on a tree with that repair",
 ]
-BUDGET = {"quick": {"soft_s": 100}, "thorough": {"soft_s": 540}}
+BUDGET = {"quick": {"soft_s": 300}, "thorough": {"soft_s": 1200}}
 MIN_EVALUATIONS = {"quick": 500, "thorough": 6000}
 REQUIRED_COUNTERS = [
     "eval:coords_not_closed_form",
